@@ -268,7 +268,8 @@ def tie(ctx, broken):
     cfgs = R.gen_configs(ctx.rng, nruns)
     outs = R.run_many(cfgs, procs=8 if ctx.quick else 12)
     tot = dict(runs=nruns, selections=0, selections_nontrivial=0, selections_with_ties=0, local_fits=0, posterior_updates=0, gp_fits=0,
-               acquisition_calls=0, gp_s2_without_S_column=set(), s2_one_short_after_append=0, aborted_runs=[], merged_repeat_runs=0)
+               acquisition_calls=0, gp_s2_without_S_column=set(), s2_one_short_after_append=0, aborted_runs=[], merged_repeat_runs=0,
+               posterior_update_faults_injected=0)
     events = []
     seen_keys = set()
     for o in outs:
@@ -282,6 +283,7 @@ def tie(ctx, broken):
         tot["acquisition_calls"] += s["lcb"] + s["lcb_es"]
         tot["gp_s2_without_S_column"] |= set(s["s2_det"])
         tot["s2_one_short_after_append"] += s["s2_misaligned_after_append"]
+        tot["posterior_update_faults_injected"] += s.get("update_faults_injected", 0)
         events += o["gsn_events"]
         for key, msg, where in o["violations"]:
             if key == STALE_KEY:
